@@ -2007,18 +2007,44 @@ def theorems_retry(ctx, target_vo: str, names, kernels=None):
     return br
 
 
-def bad_idx_retry(ctx, *a, **kw):
-    """vlib.coq_bad_idx, repeated when an evaluation died without a Coq error (killed coqc: empty / truncated output)"""
+def bad_idx_retry(ctx, name, imports, gen_imports, defs, cases, ok_fun, case_type, shard=150, needs=None, jobs=4, tries=6):
+    """Evaluate `bad_idx ok_fun cases` in shards like vlib.coq_bad_idx, but with at most [jobs] coqc at a time (a dozen
+    parallel evaluations of 150 cases take ~10 GB) and robust against a loaded machine: a shard whose coqc died WITHOUT a Coq
+    error (killed by the OOM killer / timed out: empty or truncated output) is evaluated again, alone, up to [tries] times.
+    Returns (bad indices, log) or (None, log) when Coq rejected a file or a shard kept dying."""
     import time
-    bad, log = None, ""
-    for attempt in range(3):
-        bad, log = vlib.coq_bad_idx(*a, **kw)
-        if bad is not None or "Error:" in (log or ""):
+    br = vlib.coq_make(["theories/Wire.vo", "theories/PyK.vo"] + (needs or []), timeout=1800)
+    for attempt in range(2):
+        if br.ok or br.failed_file is not None:
             break
-        if ctx is not None:
-            ctx.hist("infrastructure", "case evaluation died without a Coq error - repeated")
-        time.sleep(20 * (attempt + 1))
-    return bad, log
+        time.sleep(30)
+        br = vlib.coq_make(["theories/Wire.vo", "theories/PyK.vo"] + (needs or []), timeout=1800)
+    if not br.ok:
+        return None, "Error: model does not build: " + (br.error or "")
+    files = []
+    for si in range(0, max(len(cases), 1), shard):
+        chunk = cases[si:si + shard]
+        txt = vlib.CASE_HEADER.format(imports=imports, gen_imports=gen_imports) + defs + "\n"
+        txt += f"Definition cases : list ({case_type}) :=\n  [" + ";\n   ".join(chunk) + "].\n"
+        txt += f"Eval vm_compute in (bad_idx ({ok_fun}) cases).\n"
+        files.append((f"{name}_{si // shard}", txt))
+    res = vlib.coq_eval_many(files, timeout=900, jobs=jobs)
+    bad = []
+    for n, (ok, out) in enumerate(res):
+        attempt = 0
+        while not ok and "Error:" not in out and attempt < tries:
+            attempt += 1
+            if ctx is not None:
+                ctx.hist("infrastructure", "case evaluation died without a Coq error - repeated")
+            time.sleep(10 * attempt)
+            ok, out = vlib.coq_eval(files[n][0], files[n][1], timeout=900)
+        if not ok:
+            return None, out[-3000:]
+        idx = vlib.parse_nat_list(out)
+        if idx is None:
+            return None, "unparsable coq output: " + out[-1500:]
+        bad.extend(n * shard + k for k in idx)
+    return bad, ""
 
 
 RUN_TAG = [""]     # case files of this run: unique per process, so that two runs in one worktree never share a file
@@ -2099,7 +2125,8 @@ def run0(ctx: vlib.Ctx):
     ctx.coverage["rule"] = (
         "a case = generated schema (1-4 dataclasses incl. format mixins, per-class Config.dialect / ADD_DIALECT_SUPPORT, "
         "types over atoms, date/Decimal, Any, pass_through, Optional, 8 sequence origins, tuples, named tuples, 6 mapping "
-        "origins, nested dataclasses; oracle-only: TypedDict, ChainMap, Literal, unions, bytearray) x no_copy sets x entry "
+        "origins, nested dataclasses, TypedDict, ChainMap, Literal, unions, wrappers; oracle-only: bytearray, unions the "
+        "encode-side union model does not take) x no_copy sets x entry "
         "point (to_dict, to_dict(dialect=), to_jsonb/to_msgpack/to_toml with identity encoder, Basic/MessagePack codecs with "
         "default_dialect; from_* likewise) x generated conforming value; distinct = distinct (schema, entry, value)")
     ctx.trusted.append("Share.v run_pack/run_unpack: label model of CPython object identity (a comprehension, .copy(), "
@@ -2125,11 +2152,18 @@ def run0(ctx: vlib.Ctx):
     # (T) the effective no_copy_collections (Share.effN: call dialect > Config.dialect > default dialect > ()) is
     # CodeBuilder.get_dialect_or_config_option (K3) as called at every site that fills ValueSpec.no_copy_collections;
     # the sites that fill / read it (K118c): packer roots fill, pack_collection's rule reads, nothing on the decode side
-    theorems_retry(ctx, "props/C18_nocopy_threading.vo", ["C18_effective_nocopy_is_source", "C18_nocopy_sites"], kernels=["K3", "K118c"])
+    theorems_retry(ctx, "props/C18_nocopy_threading.vo", ["C18_effective_nocopy_is_source", "C18_nocopy_sites", "C18_item_specs_inherit"], kernels=["K3", "K118c"])
     # (T) the default dialects of the format mixins as read from the source (K118d) are what the README promises;
     # the values the correspondence cases carry (read from the imported library) must be the kernel's
     theorems_retry(ctx, "props/C18_format_dialects.vo", ["C18_format_dialects_as_documented", "C18_format_default_decisions"],
                  kernels=["K118d"])
+    # (T) the call dialect reaches a nested class exactly when the nested call names `dialect=dialect`
+    # (CodeBuilder.get_pack_method_flags, C08's kernel K8): Share.cp's ICall flag
+    theorems_retry(ctx, "props/C18_forwarding.vo", ["C18_dialect_forwarding_is_source"], kernels=["K8"])
+    # (T) Optional / bound TypeVar / NewType / Final / Required / Literal / Any cases of Share.cp are the shapes pack.py emits
+    # (K118e); an Optional item is always guarded (could_be_none=True in every item spec): never the bare name
+    theorems_retry(ctx, "props/C18_wrappers.vo", ["C18_pack_wrappers_are_source", "C18_optional_item_rebuilt",
+                                                  "C18_item_code_bare_name"], kernels=["K118e"])
     kd = kernel_format_table()
     live = {f: fmt_settings(f) for f in ("orjson", "msgpack", "toml")}
     live = {f: (sorted(ALL_ORIGINS[n][1] for n in (nc or [])) if nc is not None else None, sorted(lp)) for f, (nc, lp) in live.items()}
@@ -2140,7 +2174,8 @@ def run0(ctx: vlib.Ctx):
     if not ctx.quick() and br.ok:
         # second opinion: the independent checker re-validates the compiled library and reports every axiom
         mods = ["VerifProps.C18_share", "VerifProps.C18_kernel", "VerifProps.C18_unpack_kernel", "VerifProps.C18_pack_kernel",
-                "VerifProps.C18_nocopy_threading", "VerifProps.C18_format_dialects"]
+                "VerifProps.C18_nocopy_threading", "VerifProps.C18_format_dialects", "VerifProps.C18_forwarding",
+                "VerifProps.C18_wrappers"]
         for attempt in range(3):
             rc, out, secs = vlib.run(["timeout", "1500", "coqchk", "-silent", "-o", "-Q", "theories", "Verif", "-Q", "gen",
                                       "VerifGen", "-Q", "props", "VerifProps"] + mods, cwd=vlib.COQ, timeout=1530)
@@ -2151,7 +2186,7 @@ def run0(ctx: vlib.Ctx):
         axioms = " ".join(m.group(1).split()) if m else "?"
         ok = rc == 0 and axioms == "<none>"
         ctx.obligation("coqchk -o VerifProps.C18_*", ok, f"rc={rc} Axioms: {axioms} ({secs:.0f}s) modules: {' '.join(mods)}")
-        ctx.trusted.append(f"coqchk -o on the six props/C18_*.vo and their cone (incl. the generated kernels): Axioms: {axioms}")
+        ctx.trusted.append(f"coqchk -o on the eight props/C18_*.vo and their cone (incl. the generated kernels): Axioms: {axioms}")
         if not ok:
             ctx.not_shown("coqchk", out[-1500:])
 
